@@ -5,6 +5,7 @@ from . import main as M
 
 VERIF = M.VERIF
 SUPPORT_KINDS = ("callpre", "hint", "invariant", "measure", "retinv")
+IMPLEMENTATIONS = ("IntegerGroup", "Ed25519")
 
 # Layers of trust reported in every evidence file (DESIGN.md section 3)
 T0_NOTE = "T0 library model of Python builtins/binascii/hashlib/json/HKDF (pyvc/sym.py, pyvc/lib.py), bounded-audited against CPython"
@@ -45,6 +46,7 @@ def run_property(pid, tier):
     results = {}
     todo = list(roots)
     needed = {}     # qual -> set(clause names) required transitively by the property
+    ilaw_missing = set()
     rounds = 0
     while todo:
         rounds += 1
@@ -68,6 +70,28 @@ def run_property(pid, tier):
                             c = reg.get(cq)
                             if cq not in results and c is not None and not c.abstract_flag:
                                 newq.add(cq)
+                            if c is not None and c.abstract_flag:
+                                # interface clause: every refinement has to establish it
+                                for impl in reg.impls.get(cq, []):
+                                    s2 = needed.setdefault(impl, set())
+                                    if "refines:" + cn not in s2:
+                                        s2.add("refines:" + cn)
+                                        changed = True
+                                    if impl not in results:
+                                        newq.add(impl)
+            # interface laws used as facts in abstract proofs: add the lemma proving each for every refinement
+            for q, r in list(results.items()):
+                if "fault" in r or not (q in roots or needed.get(q)):
+                    continue
+                for a in r["axioms"]:
+                    if a.startswith("ILAW-"):
+                        for impl in IMPLEMENTATIONS:
+                            lq = reg.ilaw_lemmas.get((impl, a))
+                            if lq is None:
+                                ilaw_missing.add("%s for %s" % (a, impl))
+                            elif lq not in results and lq not in roots:
+                                roots.append(lq)
+                                newq.add(lq)
         todo = sorted(newq - set(results))
     # ---- classify ----------------------------------------------------------------------------------------
     faults = [r for r in results.values() if "fault" in r]
@@ -162,7 +186,9 @@ def run_property(pid, tier):
             "backends": backends,
             "paths_explored": sum(results[q]["paths"] for q in fns),
             "canaries_refuted": sum(sum(1 for v in results[q]["canaries"].values() if v) for q in fns),
-            "assumed_interface_clauses": assumed_contracts,
+            "interface_clauses_used": assumed_contracts,
+            "interface_clauses_refined_by": {a: reg.impls.get(a.split("/")[0], []) for a in assumed_contracts},
+            "interface_laws_not_discharged": sorted(ilaw_missing),
             "undecided": [("%s: %s" % (q, why))[:300] for q, _, why in undecided][:20],
             "not_decided_by_this_technique": cfg.not_decided,
             "source_hash": repo.source_hash, "repo_root": repo.root,
